@@ -1171,3 +1171,39 @@ def rule_record_count_owner(ctx):
                 ctx.holds("RECOWNER", key, f.where(line), "the HDF_FILE arm takes the variable's own record count%s" % (", the other arm the file's" if other else ""), nontrivial=True)
     ctx.floor("RECOWNER", 4, n, "(file_type tests that choose a record count)")
     return n
+
+
+def rule_dimension_value_unlimited(ctx):
+    """UNLIMVAL (C15, C03): an SD dimension is stored as a Vdata of its values - one record holding the size (new style,
+    class DimVal0.1) or `size` records 0, 1, .. (the backward-compatible DimVal0.0).  For the unlimited dimension the size
+    is not `dim->size` (that is the marker NC_UNLIMITED = 0) but the current number of records, and the reader of either
+    Vdata takes the record count from it.  Each routine that writes such a Vdata (VHstoredata with a DIM_VALS class) therefore
+    has the unlimited case: a test against NC_UNLIMITED under which `numrecs` supplies the stored value.  Without it the
+    compatible Vdata of a record dimension says 0, and after reopening the netCDF-style calls report 0 records where SD
+    reports the true count."""
+    from .facts import int_name
+    prog = ctx.prog
+    n = 0
+    for f in prog.lib_funcs():
+        if not f.rel.endswith("mfhdf/src/cdf.c"):
+            continue
+        stores = [s.get("l", f.line) for _b, _i, s, c in f.calls() if c[1] == "VHstoredata" and any("DIM_VALS" in render(a) or "DimVal" in render(a) for a in c[3])]
+        if not stores:
+            continue
+        n += 1
+        key = "UNLIMVAL:%s" % f.name
+        tests = False
+        reads = False
+        for _b, _i, _s, x in f.nodes(True):
+            if x[0] == "bin" and x[1] in ("==", "!="):
+                for a_ in (strip(x[2]), strip(x[3])):
+                    if kind(a_) == "int" and (int_name(a_) == "NC_UNLIMITED"):
+                        tests = True
+            if x[0] == "mem" and x[2] == "numrecs":
+                reads = True
+        if tests and reads:
+            ctx.holds("UNLIMVAL", key, f.where(stores[0]), "the value Vdata is written with an NC_UNLIMITED case that takes the stored value from numrecs", nontrivial=True)
+        else:
+            ctx.violated("UNLIMVAL", key, f.where(stores[0]), "a dimension value Vdata is written %s: for the unlimited dimension the stored size is 0 and the reader takes its record count from it" % ("with no test against NC_UNLIMITED" if not tests else "without numrecs supplying the value in the unlimited case"))
+    ctx.floor("UNLIMVAL", 2, n, "(writers of a dimension's value Vdata)")
+    return n
